@@ -16,4 +16,5 @@ for m in ['quansino.mc', 'quansino.moves', 'quansino.operations', 'quansino.util
     I.import_module(m)
 print('pyvc self-test: package interpreted,', len(I.loader.modules), 'modules')
 PY
+python3-vt tools/conformance_numpy.py
 echo setup-ok
